@@ -17,6 +17,7 @@ func init() {
 	execs["c07.alloc"] = execC07Alloc
 	execs["c07.print"] = execC07Print
 	execs["c07.lines"] = execC07Lines
+	execs["c07.hash"] = execC07Hash
 	gens["C07"] = genC07
 }
 
@@ -331,5 +332,9 @@ func genC07(c *Ctx) {
 	// 7. valid BOCs with heavy sub-cell sharing: printing / hashing /
 	//    re-serialising the parsed cells terminate within the budget
 	c07Sharing(c, r.Fork(0xc07b))
+	// 8. the same shapes with exotic-typed cells (pruned branch / library /
+	//    Merkle proof / Merkle update / unknown types, level masks 1..7, valid
+	//    and invalid payload lengths): hashing stays linear in the cells
+	c07ExoticSharing(c, r.Fork(0xc07c))
 	c07DumpStats()
 }
